@@ -531,6 +531,23 @@ func (r *yieldRewriter) rewriteForStmt(
 		return children
 	}
 
+	if hasContinue(stmt.Body) {
+		// `continue` must run the yielding post, which Combine(body, post) would skip:
+		// ForPost(cond, delay(post), delay(body))
+		postBlock := mkBlock(kindDelay)
+		r.rewriteStmt(stmt.Post, true, postBlock)
+		r.generateLastNormalIfNecessary(body)
+
+		var cond ast.Expr = X.Ident("nil")
+		if !isNil(stmt.Cond) {
+			cond = r.ForCondFun(stmt.Cond)
+		}
+		callFor := r.SeqCall(cstForPost, cond, r.CallDelay(postBlock.block), r.CallDelay(body.block))
+		children = r.combineIfNecessary(children)
+		children.pushReturn(callFor, kindFor)
+		return children
+	}
+
 	if body.combineRequired() {
 		// combine(delay(body), delay(post))
 		// rewriting by seq.Combine avoiding control flow analysis (merging body & post)
